@@ -17,6 +17,7 @@ EXPLANATION = (
     "(paired-insert invariant), and for a `get` on the decoded map the 'absent' edge continues the iteration without reaching an Err. "
     "C15.N3 (A6): with the selector of the current member/element assumed null or false, no Err exit depends on a failed lookup — a deselected node is tolerated even if it was already withheld. "
     "Equality of the narrowed presentation with the direct one is a relation between two runs and is not decided."
+    " C15.N3 counts `?`-propagated errors like constructed ones. C15.N4: the list walkers pair selection and claims in lock step over the full element sequences (rule shared with C06.H2 / C01.f)."
 )
 ASSUMPTIONS = [
     "only the necessary condition is claimed (see DESIGN.md)",
@@ -118,7 +119,7 @@ def n3(ctx, fx, H):
                     r_all = cfg.reachable(fn, [d], removed_blocks=[lp.bb], removed_edges=rem)
                     r_nofail = cfg.reachable(fn, [d], removed_blocks=[lp.bb], removed_edges=rem + fail_edges)
                     for e in cfg.exit_sites(fn):
-                        if e["kind"] == "Err" and e["bb"] in r_all and e["bb"] not in r_nofail:
+                        if e["kind"] in ("Err", "residual") and e["bb"] in r_all and e["bb"] not in r_nofail:
                             bad = e
                 if bad is None:
                     ctx.ok("C15.N3", fn, "deselected-tolerated:%s" % assume, "with the selector %s no Err depends on a missing claim/disclosure" % assume, line=fn.term(lp.bb).get("line"))
